@@ -138,7 +138,7 @@ def run(ctx):
         "checked by the harness, not by TLC",
     ]
     # ---- leg A
-    vlib.tlc_mc(ctx, SPEC, "c19_design.cfg", cfg_text=cl.cfg(MaxOps="5" if T else "4", **C19),
+    vlib.tlc_mc(ctx, SPEC, "c19_design.cfg", cfg_text=cl.cfg(MaxOps="6" if T else "5", **C19),
                 label="C19 design: 2 instances, dump/load/truncated load, ticks, lazy on/off")
     for drop, keep in (("stored", '{"msgexp", "cacheexp"}'), ("msgexp", '{"stored", "cacheexp"}')):
         res = vlib.run_tlc(ctx, SPEC, "c19_nv_%s.cfg" % drop, expect_violation=True, workers=4,
@@ -162,6 +162,16 @@ def run(ctx):
     job = {"mode": "c19", "c19": {"behaviours": behs, "map": cl.plain_map(), "shapes": shapes, "big_n": 150, "big_exec": 12,
                                   "cuts": "all" if T else "quick", "garbage": 400 if T else 80, "lazy": 0}}
     recs, _ = vlib.run_driver(ctx, binary, stdin_obj=job, timeout=1500)
+    if T:
+        # the multi-block restart once more in lazy mode (entries whose cache expiry differs from the message expiry)
+        sh50 = shapes_of(gen, lazy=50)
+        if sh50:
+            job50 = {"mode": "c19", "c19": {"behaviours": [], "map": cl.plain_map(), "shapes": sh50, "big_n": 150, "big_exec": 12,
+                                            "cuts": "none", "garbage": 0, "lazy": 50}}
+            r50, _ = vlib.run_driver(ctx, binary, stdin_obj=job50, timeout=600)
+            for r in r50:
+                r["tag"] = r.get("tag", "") + "-lazy50"
+            recs += r50
     tr = [r for r in recs if r["kind"] == "trace"]
     slow = [r for r in tr if r["slow"]]
     tr = [r for r in tr if not r["slow"]]
